@@ -1,10 +1,194 @@
-//! Miri engine for C03 (stub while the native engine is brought up).
+//! Miri engine for C03: selected G-HIST histories, serialised, are replayed by the tiny
+//! `pico_hist/miri` binary under `cargo +nightly miri run`. Any Miri diagnostic (use after free,
+//! uninitialised read, invalid reference through `RawPtr`, ...) is a C03 violation, and so is any
+//! model failure or pico panic the replay reports.
+use std::path::PathBuf;
+use std::process::Command;
+
+use serde_json::json;
 use vcore::{Args, Fail, Report};
 
-use crate::interp::{Op, Options};
+use crate::interp::{self, Op, Options};
 
-pub fn replay_under_miri(_report: &Report, _hs: &[(usize, Vec<Op>)]) -> Result<(), Fail> {
-    Ok(())
+fn target_dir() -> PathBuf {
+    // <target>/debug/pico_hist -> <target>/miri-pico
+    let exe = std::env::current_exe().unwrap_or_else(|_| PathBuf::from("harness/target/debug/pico_hist"));
+    let target = exe.parent().and_then(|p| p.parent()).map(|p| p.to_path_buf()).unwrap_or_else(|| vcore::verif_root().join("harness/target"));
+    target.join("miri-pico")
 }
 
-pub fn miri_tier(_report: &Report, _args: &Args, _opts: &Options) {}
+fn manifest() -> PathBuf {
+    vcore::verif_root().join("harness/pico_hist/miri/Cargo.toml")
+}
+
+pub struct MiriRun {
+    pub status: Option<i32>,
+    pub stdout: String,
+    pub stderr: String,
+}
+
+fn run_miri(histories: &[(usize, Vec<Op>)]) -> MiriRun {
+    let dir = vcore::scratch_base();
+    let file = dir.join("miri-histories.txt");
+    let text: String = histories.iter().map(|(c, o)| interp::encode_history(*c, o) + "\n").collect();
+    std::fs::write(&file, text).expect("write histories");
+    let out = Command::new("cargo")
+        .arg("+nightly")
+        .args(["miri", "run", "--offline", "-q", "--manifest-path"])
+        .arg(manifest())
+        .arg("--target-dir")
+        .arg(target_dir())
+        .arg("--")
+        .arg(&file)
+        .env("MIRIFLAGS", "-Zmiri-disable-isolation -Zmiri-ignore-leaks")
+        .env("RUST_BACKTRACE", "0")
+        .env_remove("RUSTFLAGS")
+        .env_remove("CARGO_TARGET_DIR")
+        .output();
+    match out {
+        Ok(o) => MiriRun {
+            status: o.status.code(),
+            stdout: String::from_utf8_lossy(&o.stdout).to_string(),
+            stderr: String::from_utf8_lossy(&o.stderr).to_string(),
+        },
+        Err(e) => vcore::inconclusive(&format!("cannot start cargo +nightly miri: {e}")),
+    }
+}
+
+/// Judge a Miri run. `Err((index of the history, failure))`.
+fn judge(run: &MiriRun, n: usize) -> Result<(), (usize, Fail)> {
+    let mut current = 0usize;
+    let mut done = None;
+    for l in run.stdout.lines() {
+        if let Some(i) = l.strip_prefix("BEGIN ") {
+            current = i.trim().parse().unwrap_or(0);
+        } else if let Some(rest) = l.strip_prefix("FAIL ") {
+            let mut it = rest.splitn(4, ' ');
+            let idx: usize = it.next().and_then(|x| x.parse().ok()).unwrap_or(current);
+            let class = it.next().unwrap_or("");
+            let sig = it.next().unwrap_or("").to_string();
+            if class == "HARNESS" {
+                vcore::inconclusive(&format!("harness-internal failure under Miri: {rest}"));
+            }
+            return Err((idx, Fail::new(format!("miri-replay:{sig}"), format!("under Miri the replay reports: {rest}"))));
+        } else if let Some(k) = l.strip_prefix("DONE ") {
+            done = k.trim().parse::<usize>().ok();
+        }
+    }
+    if run.status == Some(0) && done == Some(n) {
+        return Ok(());
+    }
+    let err = &run.stderr;
+    let is_ub = err.contains("Undefined Behavior") || err.contains("error: unsupported operation") || err.contains("memory leaked") || err.contains("data race");
+    if is_ub {
+        let first = err.lines().find(|l| l.starts_with("error")).unwrap_or("error").to_string();
+        // root cause: the raw pointer of an intern_ref node is dereferenced after its pointee died
+        if (first.contains("dangling") || first.contains("freed")) && err.contains("pico::RawPtr") && err.contains("MemoRef") {
+            let tail: Vec<&str> = err.lines().filter(|l| !l.trim().is_empty()).take(30).collect();
+            return Err((current, Fail::new("intern-ref-pointer-outlives-owner", format!("Miri aborted history #{current}:\n{}", tail.join("\n")))));
+        }
+        let kind = if first.contains("dangling") || first.contains("freed") || first.contains("dereferenced") {
+            "use-after-free"
+        } else if first.contains("uninitialized") {
+            "uninitialised-read"
+        } else {
+            "undefined-behaviour"
+        };
+        let tail: Vec<&str> = err.lines().filter(|l| !l.trim().is_empty()).take(30).collect();
+        return Err((current, Fail::new(format!("miri:{kind}"), format!("Miri aborted history #{current}:\n{}", tail.join("\n")))));
+    }
+    // anything else (build failure, missing component, crash of miri itself) is not a verdict
+    let tail: Vec<&str> = err.lines().rev().take(25).collect::<Vec<_>>().into_iter().rev().collect();
+    println!("{}", tail.join("\n"));
+    vcore::inconclusive(&format!("cargo miri did not complete (status {:?}, {}/{} histories)", run.status, done.unwrap_or(0), n));
+}
+
+/// Replay the given histories under Miri (used by `--replay` for C03).
+pub fn replay_under_miri(report: &Report, hs: &[(usize, Vec<Op>)]) -> Result<(), Fail> {
+    report.engine("miri");
+    let run = run_miri(hs);
+    judge(&run, hs.len()).map_err(|(_, f)| f)
+}
+
+/// The Miri part of the C03 tiers: a fixed number of short, selected histories.
+pub fn miri_tier(report: &Report, args: &Args, opts: &Options) {
+    use proptest::prelude::*;
+    report.engine("miri");
+    let want = args.tier.pick(8usize, 300usize);
+    let max_len = args.tier.pick(12usize, 24usize);
+    // candidates: GC-heavy short histories; keep the ones in which a handle is read after a
+    // collection or an intern_ref'd row is re-interned, as judged by a native run
+    let strat = prop_oneof![
+        1 => (1..=3usize, prop::collection::vec(crate::mixed_op(true, 10), 4..=max_len)),
+        1 => crate::row_scenario(max_len.saturating_sub(8)),
+    ];
+    let candidates = vcore::generate_values(vcore::derive_seed(report.seed, "miri-histories", 0), want * 200, &strat);
+    let mut chosen: Vec<(usize, Vec<Op>)> = vec![];
+    let mut plain: Vec<(usize, Vec<Op>)> = vec![];
+    let mut risky_chosen: Vec<(usize, Vec<Op>)> = vec![];
+    let mut two_owner: Vec<(usize, Vec<Op>)> = vec![];
+    for h in candidates {
+        let out = match vcore::catch_panic(|| interp::run_history(h.0, &h.1, opts)) {
+            Ok(o) => o,
+            Err(_) => continue,
+        };
+        if out.failure.is_some() {
+            continue; // native failures are reported by the native part
+        }
+        // the expensive engine goes where raw pointers are dereferenced after a collection
+        if out.labels.contains("row-lookup-after-gc-two-owners") && two_owner.len() < want / 2 {
+            two_owner.push(h);
+            continue;
+        }
+        let risky = out.labels.contains("row-lookup-after-gc-and-reintern") || out.labels.contains("row-lookup-after-gc");
+        if risky && risky_chosen.len() < want / 3 {
+            risky_chosen.push(h);
+            continue;
+        }
+        let interesting = out.labels.contains("lookup-after-gc") || (out.labels.contains("gc") && out.labels.contains("row-handle"));
+        if interesting && chosen.len() < want {
+            chosen.push(h);
+        } else if out.labels.contains("gc") && plain.len() < want {
+            plain.push(h);
+        }
+    }
+    report.label_n("miri-histories-with-row-lookup-after-gc-two-owners", two_owner.len() as u64);
+    report.label_n("miri-histories-with-row-lookup-after-gc", risky_chosen.len() as u64);
+    two_owner.append(&mut risky_chosen);
+    let mut risky_chosen = two_owner;
+    chosen.truncate(want - risky_chosen.len().min(want));
+    risky_chosen.append(&mut chosen);
+    let mut chosen = risky_chosen;
+    while chosen.len() < want && !plain.is_empty() {
+        chosen.push(plain.remove(0));
+    }
+    if chosen.is_empty() {
+        report.note_inconclusive("no history selected for Miri");
+        return;
+    }
+    let start = std::time::Instant::now();
+    // thorough: in chunks, so one abort does not hide the rest of the evidence
+    let chunk = args.tier.pick(want, 50);
+    let mut ran = 0u64;
+    for part in chosen.chunks(chunk) {
+        let run = run_miri(part);
+        match judge(&run, part.len()) {
+            Ok(()) => {
+                ran += part.len() as u64;
+            }
+            Err((idx, fail)) => {
+                let h = &part[idx.min(part.len() - 1)];
+                match report.tolerate(Err(fail)) {
+                    Ok(()) => {}
+                    Err(fail) => {
+                        report.violation("miri-history", &fail, crate::history_json(h));
+                        break;
+                    }
+                }
+            }
+        }
+    }
+    report.label_n("miri-histories-replayed", ran);
+    report.extra("miri", json!({"histories": ran, "wall_s": start.elapsed().as_secs_f64(), "flags": "-Zmiri-disable-isolation -Zmiri-ignore-leaks"}));
+    report.sample("miri", 2, || crate::history_json(&chosen[0]));
+}
